@@ -209,6 +209,26 @@ func registerK8sIntrinsics(e *Engine) {
 	}
 	e.reg("package-operator.run/internal/utils.ComputeFNV32Hash", hashIntr)
 	e.reg("package-operator.run/internal/utils.ComputeSHA256Hash", hashIntr)
+	// Package rendering (text/template, YAML, CEL) cannot be executed by the engine. For harnesses that are not about
+	// rendering it is replaced by: success with an instance carrying the package's manifest and no objects, or - if the
+	// package contains a file named "bad.yaml" - a validation error. Harnesses build real files for which the real
+	// renderer behaves the same way, so native replays stay faithful.
+	e.reg("package-operator.run/internal/packages/internal/packagerender.RenderPackageInstance", func(fr *frame, args []value) value {
+		i := fr.i
+		pkg := args[1].(*value)
+		st := (*pkg).(structure)
+		files, _ := st[2].(*gomap)
+		if files != nil {
+			if _, bad := files.get("bad.yaml"); bad {
+				return tuple{(*value)(nil), i.mkError("object validation failed (rendering stub)")}
+			}
+		}
+		t := i.namedType("package-operator.run/internal/packages/internal/packagetypes", "PackageInstance")
+		inst := zero(t).(structure)
+		inst[0], inst[1] = st[0], st[1]
+		var cell value = inst
+		return tuple{&cell, iface{}}
+	})
 	e.reg("k8s.io/client-go/util/flowcontrol.(*Backoff).GC", noop)
 	e.regPrefix("(*k8s.io/client-go/util/flowcontrol.Backoff).", noop)
 	// metrics recorders
